@@ -93,7 +93,8 @@ static const char * ptname(int pt) {
 
 /* ---------------- controller ---------------- */
 static pthread_mutex_t mu = PTHREAD_MUTEX_INITIALIZER;
-static pthread_cond_t cv = PTHREAD_COND_INITIALIZER;
+static pthread_cond_t cv = PTHREAD_COND_INITIALIZER;          /* main waits here */
+static pthread_cond_t cvp[MAXP] = { PTHREAD_COND_INITIALIZER, PTHREAD_COND_INITIALIZER, PTHREAD_COND_INITIALIZER, PTHREAD_COND_INITIALIZER };
 #define H_NONE (-1)
 #define H_DONE (-2)
 static int holder = H_NONE;
@@ -152,8 +153,8 @@ static void hand_over(int next) {
   if (next == me) return;
   holder = next;
   parked[me] = 1;
-  pthread_cond_broadcast(&cv);
-  while (holder != me) pthread_cond_wait(&cv, &mu);
+  pthread_cond_signal(&cvp[next]);
+  while (holder != me) pthread_cond_wait(&cvp[me], &mu);
   parked[me] = 0;
 }
 
@@ -235,8 +236,8 @@ static void * part_main(void * arg) {
   me = p;
   pthread_mutex_lock(&mu);
   parked[p] = 1;
-  pthread_cond_broadcast(&cv);
-  while (holder != p) pthread_cond_wait(&cv, &mu);
+  pthread_cond_signal(&cv);
+  while (holder != p) pthread_cond_wait(&cvp[p], &mu);
   parked[p] = 0;
   pthread_mutex_unlock(&mu);
   for (int i = 0; i < nops[p]; i++) run_op(p, &script[p][i]);
@@ -248,8 +249,8 @@ static void * part_main(void * arg) {
     for (int i = 0; i < nparts; i++) if (!finished[i]) all = 0;
     if (!all) die("deadlock: a participant finished and all others spin on the queue lock");
     holder = H_DONE;
-  } else holder = next;
-  pthread_cond_broadcast(&cv);
+    pthread_cond_signal(&cv);
+  } else { holder = next; pthread_cond_signal(&cvp[next]); }
   pthread_mutex_unlock(&mu);
   me = -1;
   return 0;
@@ -285,7 +286,7 @@ static void one_run(int runid) {
   int first = choose(-1);
   if (first < 0) die("no participant");
   holder = first;
-  pthread_cond_broadcast(&cv);
+  pthread_cond_signal(&cvp[first]);
   while (holder != H_DONE)
     if (pthread_cond_timedwait(&cv, &mu, &ts)) die("watchdog: run did not finish within 20 s");
   pthread_mutex_unlock(&mu);
